@@ -491,4 +491,58 @@ theorem splitLines_flatten (t : List Char) : ∀ acc, (splitLines t acc).flatten
     · simp [ih]
     · rw [ih]; simp
 
+/-! ### in-process process controller: times of the liveness tests -/
+
+theorem takeWhile_len_gt (t : Nat) : ∀ (checks : List Nat) (i c : Nat), checks.Pairwise (· ≤ ·) →
+    checks[i]? = some c → c < t → i < (checks.takeWhile (· < t)).length := by
+  intro checks
+  induction checks with
+  | nil => intro i c _ h; simp at h
+  | cons x xs ih =>
+    intro i c hp hc hlt
+    rw [List.pairwise_cons] at hp
+    cases i with
+    | zero =>
+      simp at hc; subst hc
+      simp [List.takeWhile_cons, hlt]
+    | succ j =>
+      rw [List.getElem?_cons_succ] at hc
+      have hmem : c ∈ xs := List.mem_of_getElem? hc
+      have hx : x < t := Nat.lt_of_le_of_lt (hp.1 c hmem) hlt
+      have := ih j c hp.2 hc hlt
+      simp [List.takeWhile_cons, hx]
+      omega
+
+theorem takeWhile_len_le (t : Nat) : ∀ (checks : List Nat) (i c : Nat),
+    checks[i]? = some c → t ≤ c → (checks.takeWhile (· < t)).length ≤ i := by
+  intro checks
+  induction checks with
+  | nil => intro i c h; simp at h
+  | cons x xs ih =>
+    intro i c hc hle
+    cases i with
+    | zero =>
+      simp at hc; subst hc
+      have : ¬ x < t := by omega
+      simp [List.takeWhile_cons, this]
+    | succ j =>
+      rw [List.getElem?_cons_succ] at hc
+      have := ih j c hc hle
+      by_cases hx : x < t
+      · simp [List.takeWhile_cons, hx]; omega
+      · simp [List.takeWhile_cons, hx]
+
+/-- without a dead server and without a refusal the send loop hands out every case -/
+theorem stopIdx_all (cs : List Case) : ∀ (b : Nat), (∀ c ∈ cs, c ≠ Case.refuse) →
+    stopIdx none b cs = b + cs.length := by
+  induction cs with
+  | nil => intro b _; simp [stopIdx]
+  | cons c rest ih =>
+    intro b h
+    have hc : c ≠ Case.refuse := h c (by simp)
+    have hc' : (c == Case.refuse) = false := by simpa using hc
+    simp only [stopIdx, dead, Bool.false_eq_true, if_false, hc']
+    rw [ih (b + 1) (fun c' hm => h c' (by simp [hm]))]
+    simp; omega
+
 end ConfModel.ServerRunner
